@@ -101,6 +101,41 @@ theorem watch_installs_current {s : WState} (hs : Inv env pf s) (hm : s.mancfg =
   rw [step_installs hs hm ht]
   exact ⟨ht, h1, h2⟩
 
+/-- **hostile_registration_changes_nothing.** The property's second sentence in one line: a registration none of
+whose routing tags can be expressed, placed anywhere in a catalog, leaves the loop in exactly the state the catalog
+without it leaves it in — same active table, same remembered text, same `Register` calls. (No hypothesis on the
+state or on the manual text.) -/
+theorem hostile_registration_changes_nothing (s : WState) (pre post : List Reg) {r : Reg}
+    (h : ∀ i ∈ intents c r, denotes env pf (render i) i = false) :
+    step env pf s (.svc (config env pf c (pre ++ r :: post))) = step env pf s (.svc (config env pf c (pre ++ post))) := by
+  unfold config
+  rw [inexpressible_dropped_alone pre post h]
+
+/-- an update that was accepted is not processed twice: delivering the same text again changes nothing (this is
+what lets stream `c14.watch` deliver every text twice to know that the loop has finished with it) -/
+theorem step_idempotent_of_accepted (s : WState) (e : WEv)
+    (h : (step env pf s e).lastTable = nextText (receive s e)) :
+    step env pf (step env pf s e) e = step env pf s e := by
+  have hr : receive (step env pf s e) e = step env pf s e := by
+    cases e <;>
+    · unfold step receive
+      simp only
+      split
+      · rfl
+      · split <;> rfl
+  have hn : nextText (step env pf s e) = nextText (receive s e) := by
+    cases e <;>
+    · unfold step receive nextText
+      simp only
+      split
+      · rfl
+      · split <;> rfl
+  have hskip : ∀ s' : WState, nextText (receive s' e) = (receive s' e).lastTable → step env pf s' e = receive s' e := by
+    intro s' hs'
+    unfold step
+    simp only [hs', beq_self_eq_true, if_true]
+  rw [hskip (step env pf s e) (by rw [hr, hn, h]), hr]
+
 /-- the states of the loop fed with the texts of a sequence of catalogs, paired with the catalogs -/
 theorem watch_follows_catalogs (cats : List (List Reg)) :
     ∀ {s : WState}, Inv env pf s → s.mancfg = [] →
@@ -167,5 +202,14 @@ example : (let s := step envW pfW init (.svc (config envW pfW cfgW [victim]))
       (match loadTable envW pfW s.lastTable with
        | .ok t => t.map (fun h => (h.1, h.2.map (·.path))) == s.table.map (fun h => (h.1, h.2.map (·.path))) && !t.isEmpty
        | .error _ => false)) = true := by decide
+
+/-- `hostile_registration_changes_nothing` on the seven hostile registrations of D19 (their hypothesis is shown in
+`Props/C14.lean`): the loop remembers the same text with and without each of them -/
+example : hostile.map (fun r => (step envW pfW init (.svc (config envW pfW cfgW [victim, r]))).lastTable) =
+    hostile.map (fun _ => (step envW pfW init (.svc (config envW pfW cfgW [victim]))).lastTable) := by decide
+
+/-- hypothesis of `step_idempotent_of_accepted` on an accepted update -/
+example : (step envW pfW init (.svc (config envW pfW cfgW [victim, web]))).lastTable =
+    nextText (receive init (.svc (config envW pfW cfgW [victim, web]))) := by decide
 
 end Fabio.Props.C14Watch
